@@ -234,7 +234,7 @@ func fromBytesCase(b []byte, class string) {
 }
 
 func frames(r *hv.Rand) {
-	n := hv.Scale(120, 2000)
+	n := hv.Scale(70, 2000)
 	for k := 0; k < n; k++ {
 		f := genFrame(r)
 		b := tubes.VerifFrameToBytes(f)
@@ -250,7 +250,7 @@ func frames(r *hv.Rand) {
 			Desc: fmt.Sprintf("frame.toBytes ack=%d no=%d dl=%d data=%dB #%s", f.AckNo, f.FrameNo, f.DataLength, len(f.Data), ident(b)),
 			Spec: vd.ok, Sig: vd.sig, What: vd.what, NT: true})
 		fromBytesCase(b, "valid")
-		if k < n/6 {
+		if k < n/7 {
 			// every header byte and the length field pushed to its limits
 			for _, dl := range []int{0, 1, len(f.Data) - 1, len(f.Data), len(f.Data) + 1, len(f.Data) + 2, 255, 256, 65523, 65524, 65525, 65535} {
 				if dl < 0 {
@@ -277,7 +277,7 @@ func frames(r *hv.Rand) {
 		fromBytesCase(b, "full-buffer")
 	}
 	// initiate frames
-	for k := 0; k < hv.Scale(60, 600); k++ {
+	for k := 0; k < hv.Scale(40, 600); k++ {
 		n := hv.Pick(r, []int{0, 0, 0, 1, 5, 100})
 		f := tubes.VerifInitFrame{FrameNo: hv.Pick(r, u32s), TubeID: byte(r.Intn(256)), TubeType: byte(r.Intn(256)), Data: xw.PatternD(n, byte(r.U64()), byte(r.Intn(4))), DataLength: uint16(n)}
 		m := r.Intn(64)
@@ -377,16 +377,16 @@ func main() {
 		nv, mut, rnd  int
 	}
 	plans := []plan{
-		{xw.WString, hv.Scale(40, 400), 12, hv.Scale(20, 200)},
-		{xw.Name, hv.Scale(40, 400), 12, hv.Scale(20, 200)},
-		{xw.Chunk, hv.Scale(40, 400), 14, hv.Scale(20, 200)},
-		{xw.Cert, hv.Scale(25, 300), 16, hv.Scale(10, 100)},
-		{xw.Intent, hv.Scale(40, 500), 14, hv.Scale(10, 100)},
-		{xw.Ag, hv.Scale(40, 500), 6, hv.Scale(20, 200)},
-		{xw.Proxy, hv.Scale(20, 200), 6, hv.Scale(10, 100)},
-		{xw.Exec, hv.Scale(30, 300), 12, hv.Scale(20, 200)},
-		{xw.UserAuth, hv.Scale(30, 300), 8, hv.Scale(20, 200)},
-		{xw.Pf, hv.Scale(40, 400), 10, hv.Scale(20, 200)},
+		{xw.WString, hv.Scale(24, 400), 8, hv.Scale(12, 200)},
+		{xw.Name, hv.Scale(28, 400), 8, hv.Scale(12, 200)},
+		{xw.Chunk, hv.Scale(36, 400), 8, hv.Scale(12, 200)},
+		{xw.Cert, hv.Scale(24, 300), 10, hv.Scale(8, 100)},
+		{xw.Intent, hv.Scale(40, 500), 12, hv.Scale(8, 100)},
+		{xw.Ag, hv.Scale(36, 500), 5, hv.Scale(12, 200)},
+		{xw.Proxy, hv.Scale(14, 200), 5, hv.Scale(8, 100)},
+		{xw.Exec, hv.Scale(26, 300), 8, hv.Scale(12, 200)},
+		{xw.UserAuth, hv.Scale(26, 300), 6, hv.Scale(12, 200)},
+		{xw.Pf, hv.Scale(36, 400), 7, hv.Scale(12, 200)},
 	}
 	for _, p := range plans {
 		runFormat(r, p.f, p.nv, p.mut, p.rnd)
